@@ -199,7 +199,7 @@ def expect_value(rep, rac, q, expected, key=None, unit_empty=True):
 
 
 def c01(rac, units, tier, seed):
-    depth, n = (3, 400) if tier == "quick" else (6, 6000)
+    depth, n = (4, 1500) if tier == "quick" else (6, 8000)
     rep = Report("C01 eval() OPERATION fold + NUMBER/PERCENTAGE arms", f"random expression trees to depth {depth} over a {len(LITS)}-literal pool ({n} trees, seed {seed}) + all operator pairs; Fraction oracle")
     rnd = random.Random(seed)
     # all operator pairs with a fixed literal triple, every parenthesisation
@@ -229,32 +229,42 @@ def c01(rac, units, tier, seed):
 
 
 def c06(rac, units, tier, seed):
-    maxlen = 3 if tier == "quick" else 5
-    rep = Report("C06 grammar: precedence / associativity / grouping / blanks", f"all operator sequences of length <= {maxlen} over + - * / ^ x every parenthesisation x 4 layouts; `to` and function-argument families; Fraction oracle")
+    maxlen = 4 if tier == "quick" else 5
+    rep = Report("C06 grammar: precedence / associativity / grouping / blanks", f"all operator sequences of length <= {maxlen} over + - * / ^ (length 5: 1000 sampled) x every parenthesisation x 3 (quick) / 5 (thorough) layouts incl. leading/trailing blanks; `to` and function-argument families; Fraction oracle")
     rnd = random.Random(seed)
     pool = [Lit("7", F(7)), Lit("2", F(2)), Lit("3", F(3)), Lit("5", F(5)), Lit("4", F(4)), Lit("11", F(11))]
     expo = [Lit("2", F(2)), Lit("3", F(3)), Lit("1", F(1)), Lit("2", F(2)), Lit("0", F(0)), Lit("2", F(2))]
+    cases = []
     for L in range(1, maxlen + 1):
         seqs = list(itertools.product("+-*/^", repeat=L))
-        if L >= 4:
-            rnd2 = random.Random(seed + L)
-            seqs = rnd2.sample(seqs, 250 if L == 4 else 200)
+        if L >= 5:
+            seqs = random.Random(seed + L).sample(seqs, 1000)
         for ops in seqs:
             leaves = [pool[0]] + [expo[i + 1] if op == "^" else pool[i + 1] for i, op in enumerate(ops)]
-            trees = all_trees(list(ops), leaves)
-            for tree in trees:
+            for tree in all_trees(list(ops), leaves):
                 try:
                     exp = ev(tree)
                 except (DivZero, NotInt):
                     exp = "err"
                 except TooBig:
                     continue
-                outs = set()
-                for style in (style_plain(), style_tight(), style_wide(rnd), dict(sp=lambda k: " ", parens="full"), dict(sp=lambda k: " " if k in ("pm", "md") else "", parens="extra")):
+                styles = [style_plain(), style_wide(rnd), dict(sp=lambda k: " " if k in ("pm", "md") else "", parens="extra")]
+                if tier != "quick" or L <= 3:
+                    styles += [style_tight(), dict(sp=lambda k: " ", parens="full")]
+                for style in styles:
                     q = render(tree, style)
-                    lead = rnd.choice(["", " ", "  ", "\t"])
-                    trail = rnd.choice(["", " ", "  ", "\t"])
-                    expect_value(rep, rac, lead + q + trail, exp, key=(ops, q))
+                    cases.append((rnd.choice(["", " ", "  ", "\t"]) + q + rnd.choice(["", " ", "  ", "\t"]), exp, (ops, q)))
+    ans = rac.ask_many([{"cmd": "query", "q": q} for q, _, _ in cases], chunk=2000)
+    for (q, exp, key), a in zip(cases, ans):
+        st = single_value(a)
+        rep.ran(key, True, dict(query=q, expected=str(exp)) if len(rep.samples) < 6 and len(key[0]) >= 3 else None)
+        if exp == "err":
+            if st[0] != "err":
+                rep.fail("expected an error, got a value", query=q, expected="error", actual=str(st[1]) if len(st) > 1 else st[0])
+        elif st[0] != "ok":
+            rep.fail("expected a value", query=q, expected=str(exp), actual=f"{st[0]}: {st[1] if len(st) > 1 else ''}")
+        elif st[1] != exp:
+            rep.fail("wrong value", query=q, expected=str(exp), actual=str(st[1]))
     # left/right/nested/first/last parenthesised operands, function arguments, `to`
     fam = [
         ("(1 + 2)", F(3)), ("((1 + 2))", F(3)), ("( ( 1 + 2 ) )", F(3)), ("3 * (1 + 2)", F(9)), ("(1 + 2) * 3", F(9)), ("(1 + 2) * (3 + 4)", F(21)),
